@@ -424,12 +424,13 @@ class ErrorRanges:
         self._lengths = self._compute_lengths()
 
     def _compute_lengths(self) -> List[int]:
-        lengths = [
-            int(errors / self.error_rate) - 1
-            for errors in range(1, int(self.error_rate * self.length) + 1)
-        ]
-        if not lengths or lengths[-1] < self.length:
-            lengths.append(self.length)
+        # lengths[e] is the greatest length at which at most e errors are allowed,
+        # that is, the greatest L with int(L * error_rate) <= e
+        lengths: List[int] = []
+        for length in range(1, self.length + 1):
+            while int(self.error_rate * length) > len(lengths):
+                lengths.append(length - 1)
+        lengths.append(self.length)
         return lengths
 
     def __repr__(self):
